@@ -5,7 +5,7 @@
    both directions, free lists, label index, edge-type index, tombstone counter);
    [abs] maps a store to the logical graph; [lg_*] are the views of the logical graph. *)
 From Coq Require Import List NArith Bool Permutation.
-From Verif Require Import GraphStore GraphStoreProofs.
+From Verif Require Import GraphStore BinSearchProofs GraphStoreProofs.
 Import ListNotations.
 Open Scope N_scope.
 
@@ -47,9 +47,56 @@ Theorem C06_degree_for_type : forall s, Inv s -> forall n t,
   out_degree s n t = lg_out_degree (abs s) (next_edge (es s)) n t /\
   in_degree s n t = lg_in_degree (abs s) (next_edge (es s)) n t.
 Proof. intros s I n t. split; [now apply view_out_degree | now apply view_in_degree]. Qed.
-Theorem C06_edges_between : forall s, Inv s -> forall a b ty,
-  Permutation (edges_between s a b ty) (lg_between (abs s) (next_edge (es s)) a b ty).
-Proof. exact view_edges_between. Qed.
+(* search_adjacency_slice as written: std's binary search (halving loop with explicit fuel, one
+   final compare), the walk back to the start of the equal run, the forward scan.  The fuel
+   ceil(log2 n) + 1 always suffices; on a slice sorted by neighbour id the search finds a position
+   holding the key or proves the key absent, and the scan visits exactly the entries with that
+   neighbour, in slice order; with the endpoint/type filter it is the specification on the slice *)
+Theorem C06_binary_search_fuel : forall l key, binary_search l key <> BsFuel.
+Proof. exact binary_search_fuel. Qed.
+Theorem C06_binary_search_sorted : forall l key, SortedN l ->
+  match binary_search l key with
+  | BsOk pos => (pos < length l)%nat /\ nbr_at l pos = key
+  | BsErr _ => forall x, In x l -> a_nbr x <> key
+  | BsFuel => False
+  end.
+Proof. exact binary_search_sorted. Qed.
+Theorem C06_search_run_sorted : forall l key, SortedN l ->
+  search_run l key = Some (filter (fun x => N.eqb (a_nbr x) key) l).
+Proof. exact search_run_sorted. Qed.
+Theorem C06_search_slice_sorted : forall s entries a b ty, SortedN entries ->
+  search_slice s entries a b ty =
+  Some (flat_map (fun x => if N.eqb (a_nbr x) b then match_entry s a b ty x else []) entries).
+Proof. exact search_slice_sorted. Qed.
+
+(* sortedness is an invariant: every write-buffer slice without a stub append since the last
+   compaction and every slice of every frozen segment is sorted by neighbour id - kept by
+   create_edge's sorted insert, delete_edge's retain, compaction's per-slice sort, for every
+   operation and history *)
+Theorem C06_sorted_init : SortedInv (es init).
+Proof. exact SortedInv_init. Qed.
+Theorem C06_sorted_preserved : forall s o, SortedInv (es s) -> SortedInv (es (fst (step s o))).
+Proof. exact SortedInv_step. Qed.
+Theorem C06_sorted_all_histories : forall ops, SortedInv (es (run ops)).
+Proof. exact SortedInv_run. Qed.
+
+(* edges_between as written (each frozen segment binary-searched on its own, then the write
+   buffer) equals its specification, never runs out of fuel, and agrees with the logical graph *)
+Theorem C06_edges_between_as_written : forall s a b ty,
+  SortedInv (es s) -> ~ In a (unsorted (es s)) ->
+  edges_between s a b ty = Some (edges_between_spec s a b ty).
+Proof. exact edges_between_as_written. Qed.
+Theorem C06_edges_between_fuel : forall s a b ty, edges_between s a b ty <> None.
+Proof. exact edges_between_fuel. Qed.
+Theorem C06_edges_between : forall s, Inv s -> SortedInv (es s) -> forall a b ty,
+  ~ In a (unsorted (es s)) ->
+  exists l, edges_between s a b ty = Some l /\
+            Permutation l (lg_between (abs s) (next_edge (es s)) a b ty).
+Proof.
+  intros s I S a b ty Hn. exists (edges_between_spec s a b ty). split.
+  - now apply edges_between_as_written.
+  - now apply view_edges_between.
+Qed.
 Theorem C06_nodes_by_label : forall s, Inv s -> forall l,
   Permutation (nodes_by_label s l) (lg_by_label (abs s) (next_node (ns s)) l).
 Proof. exact view_nodes_by_label. Qed.
@@ -88,7 +135,9 @@ Theorem C06_all_histories : forall ops,
   (forall n, Permutation (incoming_edges s n) (lg_incoming (abs s) (next_edge (es s)) n)) /\
   (forall n t, out_degree s n t = lg_out_degree (abs s) (next_edge (es s)) n t) /\
   (forall n t, in_degree s n t = lg_in_degree (abs s) (next_edge (es s)) n t) /\
-  (forall a b ty, Permutation (edges_between s a b ty) (lg_between (abs s) (next_edge (es s)) a b ty)) /\
+  (forall a b ty, ~ In a (unsorted (es s)) ->
+     exists l, edges_between s a b ty = Some l /\
+               Permutation l (lg_between (abs s) (next_edge (es s)) a b ty)) /\
   (forall l, Permutation (nodes_by_label s l) (lg_by_label (abs s) (next_node (ns s)) l)) /\
   (tstale (es s) = false ->
    forall t, Permutation (edges_by_type s t) (lg_by_type (abs s) (next_edge (es s)) t)) /\
@@ -102,7 +151,8 @@ Proof.
   split; [intros; now apply view_incoming|].
   split; [intros; now apply view_out_degree|].
   split; [intros; now apply view_in_degree|].
-  split; [intros; now apply view_edges_between|].
+  split; [intros a b ty Hn; exists (edges_between_spec s a b ty); split;
+          [apply edges_between_as_written; [apply SortedInv_run | exact Hn] | now apply view_edges_between]|].
   split; [intros; now apply view_nodes_by_label|].
   split; [intros; now apply view_edges_by_type|].
   split; [now apply view_node_count|].
@@ -120,9 +170,28 @@ Example C06_nonvacuous :
                 DeleteNode 2; CreateNode 2 [0]; CreateEdgeStub 4 2 1 2; FinishBulk] in
   fdead (es s) = 1 /\ edge_count s = 3 /\ node_count s = 3 /\
   outgoing_edges s 1 = [(3, 1, 3, 0)] /\ incoming_edges s 1 = [(4, 2, 1, 2)] /\
-  edges_between s 1 2 None = [] /\ get_edge (es s) 1 = None /\ tstale (es s) = false.
+  edges_between s 1 2 None = Some [] /\ get_edge (es s) 1 = None /\ tstale (es s) = false.
 Proof. vm_compute. repeat split; reflexivity. Qed.
 
+(* non-vacuity for the search: a hub with five buffered relationships (two parallel ones to
+   node 3), one segment frozen before, a delete of the first entry; the slices are sorted and
+   the binary search finds the run of node 3 and nothing for node 6 *)
+Example C06_search_nonvacuous :
+  let s := run [CreateNode 1 []; CreateNode 2 []; CreateNode 3 []; CreateNode 4 []; CreateNode 5 [];
+                CreateEdge 1 1 4 0; Compact; CreateEdge 2 1 5 0; CreateEdge 3 1 3 1; CreateEdge 4 1 2 0;
+                CreateEdge 5 1 3 2; CreateEdge 6 1 4 0; DeleteEdge 4] in
+  unsorted (es s) = [] /\
+  map a_nbr (slice (bout (es s)) 1) = [3; 3; 4; 5] /\
+  edges_between s 1 3 None = Some [5; 3] /\ edges_between s 1 3 (Some 1) = Some [3] /\
+  edges_between s 1 4 None = Some [1; 6] /\ edges_between s 1 6 None = Some [] /\
+  binary_search (slice (bout (es s)) 1) 4 = BsOk 2.
+Proof. vm_compute. repeat split; reflexivity. Qed.
+
+Print Assumptions C06_binary_search_fuel.
+Print Assumptions C06_binary_search_sorted.
+Print Assumptions C06_search_run_sorted.
+Print Assumptions C06_sorted_all_histories.
+Print Assumptions C06_edges_between_as_written.
 Print Assumptions C06_inv_preserved.
 Print Assumptions C06_inv_all_histories.
 Print Assumptions C06_refines.
